@@ -121,7 +121,7 @@ func c02Specs(quick bool) []*bfs.Spec {
 	d := 3
 	if !quick {
 		fees = []uint{0, 1, 100, 999, 1000, 2500}
-		d = 5
+		d = 4
 	}
 	var specs []*bfs.Spec
 	sfx := map[bool]string{true: "-q", false: ""}[quick]
@@ -132,6 +132,15 @@ func c02Specs(quick bool) []*bfs.Spec {
 	// MPP configuration; an unpaid own quote is already present so that partial melts of the mint's OWN invoice are in reach
 	specs = append(specs, &bfs.Spec{Prop: "C02", Name: "C02-mpp-fee100" + sfx, Cfg: mintops.Config{Fee: 100, MPP: true},
 		Init: []string{"fund|8,4,2,1,1,1,1", "mq|8"}, Menu: c02MppMenu, Depth: d})
+	if !quick {
+		// one level deeper where the remaining budget allows (run last; a cut level is reported as not completed)
+		specs = append(specs, &bfs.Spec{Prop: "C02", Name: "C02-mpp-fee100-d5", Cfg: mintops.Config{Fee: 100, MPP: true},
+			Init: []string{"fund|8,4,2,1,1,1,1", "mq|8"}, Menu: c02MppMenu, Depth: 5})
+		for _, f := range []uint{100, 0} {
+			specs = append(specs, &bfs.Spec{Prop: "C02", Name: fmt.Sprintf("C02-fee%d-d5", f), Cfg: mintops.Config{Fee: f},
+				Init: []string{"fund|8,4,2,1,1,1,1"}, Menu: c02Menu, Depth: 5})
+		}
+	}
 	return specs
 }
 
